@@ -11,7 +11,8 @@
    [RefFlat]  walk an unwrapped sequence outermost-first: leaf rule; elaborate_frame result
               None keeps the rest, PRUNE / a sequence not ending in next_inner replaces the
               inward rest (the maximal following run with depth >= the frame's depth), a
-              sequence ending in next_inner inserts its other items before the untouched rest;
+              sequence ending in next_inner inserts its other items before the rest (next_inner
+              itself is brought out to the frame's depth if it was nested more deeply);
    [Ref]      Unw then RefFlat.
 
    Definitions only (plus the executable, fuelled [ref_run] used as second oracle in the
@@ -74,6 +75,11 @@ Definition callees {A} (d : nat) (rest : list (A * nat)) : list (A * nat) :=
 Definition survivors {A} (d : nat) (rest : list (A * nat)) : list (A * nat) :=
   drop_while (fun e => d <=? snd e) rest.
 
+(* insert form: next_inner (the head of the rest) is brought out to the inserting frame's depth
+   if it is nested more deeply; otherwise, and for everything after it, depths are unchanged *)
+Definition redepth_s (d : nat) (rest : list sent) : list sent :=
+  match rest with (s, d') :: r => (s, Nat.min d d') :: r | [] => [] end.
+
 Definition next_of_s (rest : list sent) : option sitem :=
   match rest with (s, _) :: _ => Some s | [] => None end.
 
@@ -134,7 +140,7 @@ Inductive RefFlat (c : cfg) : list sent -> rres -> Prop :=
     RefFlat c ((SFrame f, d) :: rest) ((f, prehide c f) :: frs, lf, es1 ++ es2)
 | RF_insert f d rest l flat es1 frs lf es2 :
     elab c f <> ERaise -> classify (elab c f) (next_of_s rest) = Insert l ->
-    Unw c 0 (at_depth d l ++ rest) flat es1 -> RefFlat c flat (frs, lf, es2) ->
+    Unw c 0 (at_depth d l ++ redepth_s d rest) flat es1 -> RefFlat c flat (frs, lf, es2) ->
     RefFlat c ((SFrame f, d) :: rest) ((f, prehide c f) :: frs, lf, es1 ++ es2)
 | RF_raise f d rest flat es1 frs lf es2 :             (* a raising hook: shown, pruned, reported *)
     elab c f = ERaise ->
@@ -204,7 +210,7 @@ Fixpoint ref_flat (ufuel fuel : nat) (c : cfg) (flat : list sent) : option rres 
         | Keep => match ref_flat ufuel fuel' c rest with
                   | Some (frs, lf, es) => Some ((f, prehide c f) :: frs, lf, es) | None => None end
         | Replace l => go (prehide c f) [] (at_depth d l ++ survivors d rest)
-        | Insert l => go (prehide c f) [] (at_depth d l ++ rest)
+        | Insert l => go (prehide c f) [] (at_depth d l ++ redepth_s d rest)
         end
       end
     | _ => Some ([], map fst flat, [])
